@@ -15,6 +15,7 @@ def handle (line : String) : String :=
       | "auth" => Drv.opAuth j
       | "overlap" => Drv.opOverlap j
       | "storeops" => Drv.opStoreOps j
+      | "loc" => Drv.opLoc j
       | "cacheopt" => Drv.opCacheOpt j
       | "history" => Drv.opHistory j
       | "argctx" => Drv.opArgCtx j
